@@ -25,6 +25,8 @@ CHECKS = {
             'generated pipelines x stop/failure positions x owned schedules; sync, async, SyncIter and AsyncIter variants'),
     'C08': ('exploration', T_SIM + 'invariants pulled-handed <= bound and running <= concurrency evaluated at every scheduling step', SIM_NOTE,
             'generated chains x speed ratios x lengths (incl. unbounded sources) x owned schedules; bounds are observed to be attained'),
+    'C15': ('exploration', 'property-based testing (Hypothesis) over generated exception classes/args/traceback depths/cause chains/hop sequences/EnsembleError nestings; oracle: round-trip clauses after every hop (class, args, state, is_remote_exception, first-hop traceback text contained; identical text when only forwarded)', 'Held on everything explored, never absence. Hops are pickle round trips inside one process; the exception zoo is restricted by construction to classes that round-trip under plain pickle.',
+            'generated exception zoo x hop sequences (forward / re-raise) x nesting in EnsembleError'),
     'C16': ('exploration', T_SIM + 'differential sync vs async on identical inputs, both also against the sequential reference', SIM_NOTE,
             'fifo_stream/async_fifo_stream and the four parmap variants on identical generated inputs, durations, preprocessor failures and flags'),
     'C02': ('exploration', T_SIM + 'reference evaluator of the generated servlet tree; legality rules for TimeoutError/ServerBacklogFull; generated object-identity allocator', SIM_NOTE,
